@@ -41,6 +41,7 @@ def main(run):
     run.prove(extra_targets=["proofs/Pinned_comm.vo"])
     model_ok = run.build_model()
     run.run_findings()
+    run.pylite(['config'])
     if model_ok:
         for what, c, m in run.differential(cases(run)):
             run.violation(what, {"call": c["cmd"][:4000], "implementation": c["impl"][:4000], "model": m[:4000]})
